@@ -3,6 +3,7 @@ import OPM.Model.InterpRun
 import OPM.Lemmas.InterpC02
 import OPM.Lemmas.InterpC02b
 import OPM.Lemmas.InterpC02c
+import OPM.Lemmas.InterpC02d
 set_option linter.unusedSimpArgs false
 /-!
 # C02 Method instructions run once each, in source order
@@ -189,6 +190,73 @@ theorem trailing_blank_not_completed_by_its_body (p : Prog) (s : St) (n pc : Nat
   split
   · rename_i e; subst e; rfl
   · rfl
+
+theorem blankGood_applyReq (p : Prog) (s : St) (r : Req) (h : Good (BlankInv p) (FramesOK p) s) :
+    Good (BlankInv p) (FramesOK p) (applyReq p s r) := by
+  cases r with
+  | tick i =>
+    apply good_tick (blankInv_lifts p) s i
+    exact ⟨⟨fun e he => h.1.1 e he, fun k hb => h.1.2 k hb⟩, h.2⟩
+  | cancel n =>
+    simp only [applyReq]
+    cases hc : cancel p s n with
+    | none => exact h
+    | some s' =>
+      simp only [Option.getD]
+      unfold cancel at hc
+      split at hc
+      · cases hc
+        refine ⟨⟨fun e he => h.1.1 e he, fun k hb => ?_⟩, h.2⟩
+        simp only [rt_setRt]; split
+        · rename_i e; subst e; exact h.1.2 _ hb
+        · exact h.1.2 k hb
+      · cases hc
+  | force n =>
+    simp only [applyReq]
+    cases hc : force p s n with
+    | none => exact h
+    | some s' =>
+      simp only [Option.getD]
+      unfold force at hc
+      split at hc
+      · cases hc
+        refine ⟨⟨fun e he => h.1.1 e he, fun k hb => ?_⟩, h.2⟩
+        simp only [rt_setRt]; split
+        · rename_i e; subst e; exact h.1.2 _ hb
+        · exact h.1.2 k hb
+      · cases hc
+  | complete n =>
+    simp only [applyReq]
+    split
+    · rename_i hcmd
+      unfold completeCmd
+      split
+      · exact h
+      · refine ⟨⟨fun e he => h.1.1 e he, fun k hb => ?_⟩, h.2⟩
+        simp only [rt_setRt]; split
+        · rename_i e; subst e
+          unfold isCmd at hcmd; unfold isTrailingBlank at hb
+          split at hcmd <;> simp_all
+        · exact h.1.2 k hb
+    · exact h
+
+/-- **A trailing Blank/Comment is never completed**, in any reachable state of any method (all nestings,
+    all generators, all schedules): together with `trailing_blank_never_returns` this is why the scope's
+    loop never passes it, so a line appended there later is still ahead of `child_index`. -/
+theorem trailing_blank_is_never_completed (p : Prog) (s : St) (hr : Reachable p s) (k : Nat)
+    (hk : (node p k).kind = .blank true) : (s.rt k).completed = false := by
+  have hgood : Good (BlankInv p) (FramesOK p) s := by
+    induction hr with
+    | init =>
+      refine ⟨⟨fun e he => by simp [init] at he, fun k _ => rfl⟩, ?_⟩
+      intro g hg
+      simp only [init, List.mem_singleton] at hg
+      subst hg
+      intro f hf
+      simp only [List.mem_singleton] at hf
+      subst hf; rfl
+    | step s r _ ih => exact blankGood_applyReq p s r ih
+  exact hgood.1.2 k (by unfold isTrailingBlank; rw [hk])
 
 /-! ## Marks take effect at most once (methods without Alarm / Call macro) -/
 
